@@ -58,7 +58,7 @@ def lex(g, data, skip_ws=True, skip_nl=True, matchers=None):
         out.toks.append((best, pos, bl, line, col))
         line, col = advance(line, col, data[pos:pos + bl]); pos += bl
 
-TAG = {'V': 0, 'W': 1, 'M': 9, 'B': 8}
+TAG = {'V': 0, 'W': 1, 'M': 9, 'B': 8, 'T': 7}
 
 def lex_script(g, data, skip_ws=True, skip_nl=True):
     """tokens as the scripted custom lexer answers; also the expected log entry of every lexer call"""
@@ -130,7 +130,8 @@ def expect(g, tb, data, skip_ws=True, skip_nl=True, ctx_mode=None, matchers=None
             for kid in node.kids:
                 if kid.rule is not None:
                     vt = g.vtypes[g.rules[kid.rule].lhs]
-                    if vt == 'B':
+                    if vt == 'N': args.append('e,')
+                    elif vt == 'B':
                         bid, items = kid_val(kid); args.append('b%d[%s],' % (bid, '.'.join(str(x) for x in items)))
                     else: args.append(('i%d,' if vt == 'I' else 'v%d,') % kid_val(kid))
                 elif kid.term == g.ERR:
@@ -142,7 +143,9 @@ def expect(g, tb, data, skip_ws=True, skip_nl=True, ctx_mode=None, matchers=None
                     elif term.kind == 'c': args.append('c%d:%d:%d,' % (tk[3], tk[4], ord(term.text)))
                     else: args.append('s%d:%d:%d:%d,' % (tk[3], tk[4], tk[1], tk[2]))
             vt = g.vtypes[rule.lhs]
-            if rule.ftor == 'f':
+            if rule.ftor == 'f' and vt == 'N':
+                ev.append('r%d(%s)=N;' % (r, ''.join(args))); node_val[id(node)] = 0
+            elif rule.ftor == 'f':
                 v = fresh(); ev.append('r%d(%s)=%d;' % (r, ''.join(args), v)); node_val[id(node)] = (v, []) if vt == 'B' else v
             elif rule.ftor == 'nb':
                 node_val[id(node)] = (fresh(), [])                   # create<Bag>{}: a fresh empty container, no event
@@ -156,7 +159,10 @@ def expect(g, tb, data, skip_ws=True, skip_nl=True, ctx_mode=None, matchers=None
                 elif ctx_mode == 22: hdr = '~m#%d' % xcount
                 else: hdr = '=m#%d' % xcount
                 xcount += 1
-                v = fresh(); ev.append('x%d[%s](%s)=%d;' % (r, hdr, ''.join(args), v)); node_val[id(node)] = v
+                if vt == 'N':
+                    ev.append('x%d[%s](%s)=N;' % (r, hdr, ''.join(args))); node_val[id(node)] = 0
+                else:
+                    v = fresh(); ev.append('x%d[%s](%s)=%d;' % (r, hdr, ''.join(args), v)); node_val[id(node)] = v
             elif rule.ftor == 'd' and vt == 'B':
                 node_val[id(node)] = kid_val(node.kids[0]) if node.kids else (fresh(), [])
             elif rule.ftor == 'd':
